@@ -3,6 +3,14 @@
 COMMON_MODEL = "Go runtime, reflect, sync and the standard library are not modelled"
 
 PROPS = {
+    "C04": dict(
+        level_text="Coq theorems for every history/interleaving (granularity: the status flip is atomic, threads are held at user-hook entries): termination is permanent and the exit error is the first Exit's; the flip takes all hooks (a terminated process holds none in any reachable state, a second Exit takes nothing - no hook can run twice), clears the values and hooks run as the reversed registration list. Tied to pkg/process by driving real processes from 2-3 worker goroutines with parking hooks so that Fork/AddExitHook/Exit of other threads land between the flip and any hook; hook log, Status/Err/Done/keys after every step and Join at the end are compared with the model; on complete states a Go oracle evaluates the property directly (each hook exactly once with the process's error, reverse order, cascade to descendants, Join iff children terminated).",
+        level_note="Trusted: Coq kernel + vm_compute; hand transcription of process.go; the exactly-once / cascade / Join clauses at log level are checked on generated histories (model and implementation), not proved in Coq; WaitGroup and channels are Go runtime.",
+        technique="Coq invariant proofs (sticky termination, hooks taken once) + vm_compute correspondence under forced interleavings + direct property oracle",
+        quick_n=250, thorough_n=6000, shard=25, mismatch_is_failure=True,
+        assumptions=["hooks supplied by the user return when released (they are functions of the harness)", "Join is probed after the last Fork (documented usage)"],
+        trusted_base=["pkg/process/process.go, exithook.go transcribed by hand into theories/Process/Process.v", COMMON_MODEL],
+    ),
     "C01": dict(
         level_text="Coq theorems for every history over the property's alphabet (any number of readers, any order): the serials of the responses emitted so far followed by the serials of the writes still pending are exactly 0..accepted-1 - each accepted write is answered at most once, in write order, none lost; a write that reports zero accepting readers gets no response; responses are joins (errors dominate, empty answers vanish, payloads in link order); positional lookups stay in range. Tied to pkg/packet by driving one real Writer and real Readers through generated histories (the goroutines Reader.Close spawns are parked in a build-tagged gate and delivered as explicit steps) and comparing every return value, the response stream and the requests seen by each reader with the model, plus an identity-based request/response ledger in Go as failing-input oracle for attribution.",
         level_note="Trusted: Coq kernel + vm_compute; hand transcription of writer.go/reader.go/packet.go; steps are the code's critical sections (their atomicity is C20). Attribution of answers to writes (positional matching) is checked against the ledger on generated histories, not proved in Coq; known finding F-C01-d (stale re-link).",
